@@ -140,8 +140,10 @@ Theorem idx_sess_node_step s o s' : kinv s -> idx_sess s -> idx_node s -> step s
 Proof.
   intros Hi Hs Hn. unfold step. destruct o.
   - destruct (begin_block _) as [x| |] eqn:H; try discriminate. intros [= <-].
-    apply begin_block_keeps in H. split; [eapply (idx_sess_frame s)|eapply (idx_node_frame s)]; eauto; try keeps_solve.
-    intros a. unfold act_iat. replace (node_act x) with (node_act s) by (symmetry; keeps_solve). reflexivity.
+    apply begin_block_keeps in H.
+    assert (En : node_act x = node_act s /\ node_q x = node_q s) by keeps_solve.
+    split; [eapply (idx_sess_frame s); eauto; keeps_solve|eapply (idx_node_frame s); [apply En| |exact Hn]].
+    intros a0. unfold act_iat. destruct En as [-> _]. reflexivity.
   - unfold run_tx. destruct (validate_basic m); [|discriminate].
     destruct (handle _ m) as [x| |] eqn:H; try discriminate. intros [= <-].
     assert (Hi0 : kinv (clear_events s)) by (apply kinv_clear; exact Hi).
